@@ -218,10 +218,10 @@ def gen_schedules(ctx, quick):
             out.append((2, pre, s, "all-2-interleavings"))
     # other pre-existing contents: sample
     for pre in ("garbage", "deadpid", "whitespace", "hugepid", "livepid", "ownpid", "negpid", "zeropid"):
-        for s in rng.sample(two["empty"], 25 if quick else len(two["empty"])):
+        for s in rng.sample(two["empty"], 10 if quick else len(two["empty"])):
             out.append((2, pre, s, "all-2-interleavings"))
     # crash / unlock insertions into 2-contender interleavings
-    n_ins = 220 if quick else 3000
+    n_ins = 150 if quick else 3000
     for _ in range(n_ins):
         pre = rng.choice(["none", "empty", "deadpid", "livepid", "ownpid", "hugepid"])
         s = list(rng.choice(two["none" if pre == "none" else "empty"]))
@@ -239,7 +239,7 @@ def gen_schedules(ctx, quick):
         out.append((2, pre, s, "crash-or-unlock-inserted"))
     # three contenders around the release window: P0 holds, P1 has the lock file open, P0 unlocks (k of its 2 calls done),
     # P1 continues for m calls, P0 finishes, a newcomer P2 runs, P1 runs
-    for pre in ("none", "empty"):
+    for pre in (("none",) if quick else ("none", "empty")):
         for a in (1, 2):
             for k in (0, 1, 2):
                 for m in range(0, 8):
@@ -247,7 +247,7 @@ def gen_schedules(ctx, quick):
                         [["s", 2]] * 8 + [["s", 1]] * 8
                     out.append((3, pre, s, "release-window-3"))
     # three contenders: random schedules
-    for _ in range(150 if quick else 3000):
+    for _ in range(100 if quick else 3000):
         pre = rng.choice(["none", "empty", "garbage", "deadpid", "livepid", "ownpid", "whitespace"])
         s = []
         for _ in range(rng.randrange(8, 45)):
@@ -272,13 +272,20 @@ def run(ctx):
                             "content), crash (SIGKILL) or Unlock inserted at random positions, random schedules of 3 contenders, two fixed regression "
                             "schedules; each followed by a progress phase (others killed, holder unlocked or killed, one waiter runs alone). "
                             "distinct_nontrivial = distinct executed event sequences in which at least two processes performed a file-system call")
-    recs = []
     fam = {}
-    for idx, (n, pre, events, family) in enumerate(scheds):
-        rec = run_schedule(binary, base, idx, n, pre, events, ctx.rng)
-        rec["family"] = family
-        recs.append(rec)
+    for _, _, _, family in scheds:
         fam[family] = fam.get(family, 0) + 1
+    import random
+    from concurrent.futures import ThreadPoolExecutor
+
+    def one(job):
+        idx, (n, pre, events, family) = job
+        rec = run_schedule(binary, base, idx, n, pre, events, random.Random(ctx.seed * 1000003 + idx))
+        rec["family"] = family
+        return rec
+    # the arenas are independent (own directories, own processes): four at a time
+    with ThreadPoolExecutor(max_workers=4) as ex:
+        recs = list(ex.map(one, enumerate(scheds)))
     ctx.coverage["schedules_by_family"] = fam
     ctx.coverage["evaluations"] = len(recs)
     # ---- oracle on the real processes ---------------------------------------------------------
